@@ -108,12 +108,64 @@ def run_real_files(case):
 		shutil.rmtree(tmp, ignore_errors=True)
 
 
+def run_real_bad(case):
+	"""real files, one of which opens fine but fails AFTER the first reads (truncated / corrupt gzip, undecodable byte far into
+	the file) or is missing: the whole call must raise, whatever the mode and the position of the bad file"""
+	import gzip, os, shutil, tempfile
+	from gambit.kmers import KmerSpec
+	from gambit.seq import SequenceFile
+	from gambit.sigs.calc import calc_file_signatures
+	tmp = tempfile.mkdtemp(prefix='c13_')
+	try:
+		rnd = random.Random(case.get('seed', 0))
+		files = []
+		for i in range(case['n']):
+			body = ''.join(f'>c{j}\n' + ''.join(rnd.choice('ACGT') for _ in range(20000)) + '\n' for j in range(case.get('contigs', 12)))
+			if i != case['pos']:
+				p = os.path.join(tmp, f'g{i}.fasta')
+				open(p, 'w').write(body)
+			elif case['how'] == 'missing':
+				p = os.path.join(tmp, f'g{i}.fasta')
+			elif case['how'] == 'truncated_gz':
+				p = os.path.join(tmp, f'g{i}.fasta.gz')
+				data = gzip.compress(body.encode())
+				open(p, 'wb').write(data[:int(len(data) * .6)])
+			elif case['how'] == 'corrupt_gz':
+				p = os.path.join(tmp, f'g{i}.fasta.gz')
+				data = bytearray(gzip.compress(body.encode()))
+				for off in range(int(len(data) * .7), int(len(data) * .7) + 40):
+					data[off] ^= 0xff
+				open(p, 'wb').write(bytes(data))
+			else:     # undecodable byte far into a plain file
+				p = os.path.join(tmp, f'g{i}.fasta')
+				raw = body.encode()
+				cut = int(len(raw) * .8)
+				open(p, 'wb').write(raw[:cut] + b'\xff\xfe' + raw[cut:])
+			files.append(SequenceFile(p, 'fasta', 'auto'))
+		ks = KmerSpec(4, 'AT')
+		try:
+			if case['mode'] == 'own_executor':
+				from concurrent.futures import ThreadPoolExecutor
+				with ThreadPoolExecutor(max_workers=2) as ex:
+					res = calc_file_signatures(ks, files, executor=ex)
+			else:
+				res = calc_file_signatures(ks, files, concurrency=case['mode'], max_workers=case.get('workers', 2))
+			act = f'returned {len(res)} signatures (sizes {[len(x) for x in res]})'
+		except Exception as e:
+			act = 'raised'
+		return {'ok': act == 'raised', 'expected': 'raised', 'actual': act}
+	finally:
+		shutil.rmtree(tmp, ignore_errors=True)
+
+
 _orig_run_case = run_case
 
 
 def run_case(case):
 	if case.get('kind') == 'real_files':
 		return run_real_files(case)
+	if case.get('kind') == 'real_bad':
+		return run_real_bad(case)
 	return _orig_run_case(case)
 
 
@@ -156,6 +208,11 @@ def bounded(tier, seed):
 		if n:
 			run({'n': n, 'perm': [], 'mode': 'threads', 'bad': [rnd.randrange(n)]})
 			run({'n': n, 'perm': [], 'mode': 'sequential', 'bad': [rnd.randrange(n)]})
+	# real files, one of which fails only after its first reads, or is missing: every mode x every position (n = 3)
+	for how in ('truncated_gz', 'corrupt_gz', 'bad_bytes_late', 'missing'):
+		for mode in (None, 'threads', 'processes', 'own_executor'):
+			for pos in ((0, 1, 2) if (tier != 'quick' or mode in (None, 'threads')) else (rnd.randrange(3),)):
+				run({'kind': 'real_bad', 'n': 3, 'pos': pos, 'how': how, 'mode': mode, 'seed': 3})
 	return {'tool': 'real calc_file_signatures with an executor stub completing futures in every permutation; real thread pool; sequential mode',
-	        'bound': f'all completion orders for n <= {nmax} files, each position of an unreadable file for n <= 4', 'cases': n_cases,
+	        'bound': f'all completion orders for n <= {nmax} files, each position of an unreadable file for n <= 4; real files that fail only after the first reads (truncated / corrupt gzip, undecodable byte late in the file) or are missing x 4 execution modes x positions', 'cases': n_cases,
 	        'failures': failures[:3], 'samples': sample}
